@@ -407,6 +407,23 @@ func run(c *core.Ctx) error {
 	if _, ok := c.ModelCheck("ScorchDisk", mcfg, core.Workers(8), core.Timeout(25*time.Minute), core.Heap(8000)); !ok {
 		return nil
 	}
+	// an index made by the offline builder and then used online: the copy must protect the
+	// builder's file under its real name. The design "a file is named after its segment id"
+	// is refuted (CopyFilesOnDisk); the directed schedule below enacts that counterexample.
+	if c.Thorough() {
+		if _, ok := c.ModelCheck("ScorchDisk", "ScorchDisk_mc_builder_thorough.cfg", core.Workers(8), core.Timeout(25*time.Minute), core.Heap(8000)); !ok {
+			return nil
+		}
+	}
+	if res, ok := c.ModelRefutes("ScorchDisk", "ScorchDisk_mc_builder_byid.cfg", "CopyFilesOnDisk", core.Workers(8), core.Timeout(25*time.Minute), core.Heap(8000)); ok && res != nil {
+		var sched []string
+		for _, st := range res.CounterEx {
+			sched = append(sched, st.Action)
+		}
+		c.Extra("builder_base_byid_model_schedule", sched)
+	} else if !ok {
+		return nil
+	}
 	rng := rand.New(rand.NewSource(c.Seed * 31))
 	outs, healthy := failedCopyRuns(c)
 	failedCopyInProcess = healthy
@@ -474,6 +491,14 @@ func run(c *core.Ctx) error {
 		c.Violation("c14/copy-failed", fmt.Sprintf("directed schedule: CopyTo failed, a file it needed was removed before the copy ended: %v", dres.CopyErr), map[string]any{"scenario": "directed-copy"})
 	}
 	outs = append(outs, &outcome{Name: "directed-copy", Records: dres.Records, Copies: 1})
+	bres, err := sx.DirectedHeldEpochBuilt(c.TempDir("c14d"), c.Seed)
+	if err != nil {
+		return err
+	}
+	c.Eval(1)
+	if bres.CopyErr != nil {
+		c.Violation("c14/copy-failed", fmt.Sprintf("directed schedule on an index made by the offline builder: CopyTo failed, a file it needed was removed before the copy ended: %v", bres.CopyErr), map[string]any{"scenario": "directed-copy-builder-base"})
+	}
 	runs := make([][]any, len(outs))
 	for i, o := range outs {
 		runs[i] = o.Records
